@@ -289,6 +289,58 @@ def lseg_wf(s, text):
         implies(both(neg(is_run), neg(offs_none)), s.sc >= 0))
 
 
+
+class Src:
+    """A segment of the original line as the source of pieces: columns, offset (optional), end (0 for padding), and
+    whether it is a run of the text."""
+    def __init__(self, sc, offs, end, is_run):
+        self.sc, self.offs, self.end, self.is_run = sc, offs, end, is_run
+
+
+def src_of_obj(s):
+    return Src(s.sc, s.offs, ite(_isnone_f(s.end), 0, val(s.end)) if isinstance(s.end, V.SOpt) else (s.end or 0), neg(_isnone_f(s.end)))
+
+
+def src_of_seg(e):
+    return Src(seg_cols(e), seg_sel(e, lambda t: t[1]), seg_sel(e, lambda t: t[2] if len(t) == 3 else 0), seg_is_run(e))
+
+
+def piece(t, src, c, text):
+    """Segment `t` of a trimmed line shows, starting at column `c` of the source segment `src`, what the source shows
+    there:
+      * part of a padding segment: padding with the same offset, within the source's columns;
+      * part of a run (sc, o, e): a run (w, o', e') with o <= o' <= e' <= e whose first character has column c in
+        the source -- so every character keeps its column -- or ONE column of padding (1, k) standing for the half
+        of a character k of the run that is cut by the edge: the character ends right after this column
+        (left edge) or starts at it (right edge)."""
+    o = val(src.offs)
+    e = src.end
+
+    def fn(tt):
+        if len(tt) == 2:
+            w, k_opt = tt
+            k = val(k_opt)
+            from_pad = both(neg(src.is_run), opt_eq(k_opt, src.offs), 0 <= c, c + w <= src.sc)
+            cut = False if k is None else both(src.is_run, neg(_isnone_f(k_opt)), w == 1, o <= k, k < e,
+                                               either(W(text, k + 1) - W(text, o) == c + 1, W(text, k) - W(text, o) == c))
+            return either(from_pad, cut)
+        w, o2, e2 = tt
+        return both(src.is_run, o <= o2, o2 <= e2, e2 <= e, W(text, o2) - W(text, o) == c)
+
+    return seg_sel(t, fn)
+
+
+def pieces_of(result, src, c0, text, callee):
+    """Every segment q of `result` is a piece of `src` at column c0 + (columns of result before q)."""
+    s_ = result.seq if isinstance(result, Q.LRef) else result
+    if isinstance(s_, (tuple, list)):
+        return both(True, *[piece(s_[q], src, c0 + colsum(result, q), text) for q in range(len(s_))])
+    if callee:
+        return forall(0, n_segs(result), lambda q: piece(seg_at(result, q), src, c0 + colsum(result, q), text), check_empty=False)
+    q = V.arbitrary("piece")
+    return implies(both(0 <= q, q < n_segs(result)), piece(seg_at(result, q), src, c0 + colsum(result, q), text))
+
+
 def _subseg_witness(callee):
     st = cur()
     if callee:
@@ -329,6 +381,7 @@ def _subseg_ens(old, s, a, result, callee=False):
             implies(r == 1, elem_is(result, pl, (mid, spos, epos))),
             implies(pr == 1, elem_is(result, pl + r, (1, epos)))))
         yield "kept-run-is-a-run-of-the-text", implies(both(s0 < e0, is_run, r == 1), run_ok(t, mid, spos, epos))
+    yield "each-result-segment-shows-part-of-this-segment-at-its-column", implies(s0 < e0, pieces_of(result, src_of_obj(old), s0, t, callee))
 
 
 @contract(TL + "LayoutSegment.subseg", property="C03", replayable=False)
@@ -472,3 +525,110 @@ class pack:
 
     def on_raise(old, s, a, exc):
         yield "only-for-an-empty-layout", Q.seq_len(a.layout) == 0
+
+
+# ---- trim_line
+
+def seg_ok(e, text, j):
+    """Segment j of a line laid out for `text`: padding (cols >= 0, offs | None) -- only a leading shift (amount, None)
+    may be negative --, or a run (cols > 0, offs, end) of the text whose columns are the width of its characters."""
+    def ok(t):
+        if len(t) == 2:
+            return either(t[0] >= 0, both(j == 0, _isnone_f(t[1])))
+        return both(t[0] > 0, run_ok(text, t[0], t[1], t[2]))
+    return seg_sel(e, ok)
+
+
+def line_wf(line, text, lo=0):
+    return forall(lo, n_segs(line), lambda j: seg_ok(seg_at(line, j), text, j), check_empty=False)
+
+
+@lemma("columns-prefix-sum-monotone", property="C03")
+class cols_monotone:
+    """A prefix sum of non-negative columns never decreases: P(b) := S(a) <= S(b) for a <= b, by induction on b
+    (base b = a; step from the defining equation S(b+1) = S(b) + cols(b), cols(b) >= 0).  Used, instantiated, for the
+    columns of the segments after a (possibly negative) leading shift."""
+    params = dict(a=Int, b=Int, t=Int, sa=Int, sb=Int)
+
+    def requires(x):
+        return both(x.a <= x.b, x.t >= 0, x.sa <= x.sb)
+
+    def claim(x):
+        yield "base", x.sa <= x.sa
+        yield "step", x.sa <= x.sb + x.t
+
+
+def cols_mono(line, wf, a, b):
+    """Instance of `columns-prefix-sum-monotone`: under the line's well-formedness `wf` (segments from index 1 on have
+    non-negative columns), 1 <= a <= b <= len  =>  colsum(a) <= colsum(b)."""
+    cur().assume(implies(both(wf, 1 <= a, a <= b, b <= n_segs(line)), colsum(line, a) <= colsum(line, b)))
+
+
+def spec_trim_width(line, start, end):
+    """Columns of the trimmed line: the part of [start, end) the line covers."""
+    return imax(imin(end, colsum(line, n_segs(line))) - start, 0)
+
+
+def shows_original(res, r, segs, upto, start0, text):
+    """Segment r of the trimmed line is a piece of some original segment j < upto, at the column where it stands in
+    the trimmed line plus `start0`, counted from where segment j starts in the original line."""
+    y = colsum(res, r)
+    return exists(0, upto, lambda j: piece(seg_at(res, r), src_of_seg(seg_at(segs, j)), y + start0 - colsum(segs, j), text))
+
+
+def _trim_ens(a, result, callee=False):
+    segs, t = a.old.segs, a.text
+    n = n_segs(segs)
+    wf = line_wf(segs, t)
+    st = cur()
+    if not callee:
+        # instances of the monotonicity lemma at the indices in play: where the loop stopped, and the end of the line
+        k = st.ghost.get("loop_index")
+        if k is not None:
+            cols_mono(segs, wf, k + 1, n)
+            cols_mono(segs, wf, imax(k, 1), n)
+    yield "columns-are-exactly-the-part-of-the-range-the-line-covers", colsum(result, n_segs(result)) == spec_trim_width(segs, a.start, a.end)   # FAILS-ON-TREE: trim_line([(2,0,2),(2,2,4),(2,4,6)], 'abcdef', 0, 3) has 6 columns (x is not advanced over segments kept whole)
+    if callee:
+        yield "result-is-a-line-of-the-text", line_wf(result, t)
+        yield "every-result-segment-shows-part-of-an-original-segment-at-its-column-minus-start", forall(
+            0, n_segs(result), lambda r: shows_original(result, r, segs, n, a.start, t), check_empty=False)
+    else:
+        r = V.arbitrary("seg")
+        yield "result-is-a-line-of-the-text", implies(both(0 <= r, r < n_segs(result)), seg_ok(seg_at(result, r), t, r))
+        yield "every-result-segment-shows-part-of-an-original-segment-at-its-column-minus-start", implies(
+            both(0 <= r, r < n_segs(result)), shows_original(result, r, segs, n, a.start, t))
+
+
+def _trim_inv(v):
+    segs, t = v.segs, v.text
+    i, n = v.i_, n_segs(v.segs)
+    start0 = v.old.start
+    X = colsum(segs, i)
+    res = v.result
+    wf = line_wf(segs, t)
+    cols_mono(segs, wf, 1, i)
+    yield "x-is-the-column-where-the-next-segment-starts", v.x == X   # FAILS-ON-TREE (inv-preserve on the path that keeps a whole segment: `x += sc` is missing there)
+    yield "start-is-what-is-left-to-skip", v.start == imax(start0 - X, 0)
+    yield "columns-so-far-stay-within-the-range", X <= v.end
+    yield "result-holds-the-columns-from-start-to-here", colsum(res, n_segs(res)) == imax(X - start0, 0)
+    yield "next-segment-is-well-formed", implies(i < n, seg_ok(seg_at(segs, i), t, i))
+    if isinstance(res.seq, tuple) and not res.seq:
+        return
+    r = V.arbitrary("seg")
+    yield "result-so-far-is-a-line-of-the-text", implies(both(0 <= r, r < n_segs(res)), seg_ok(seg_at(res, r), t, r))
+    yield "result-so-far-shows-parts-of-the-segments-done-at-their-columns-minus-start", implies(
+        both(0 <= r, r < n_segs(res)), shows_original(res, r, segs, i, start0, t))
+
+
+@contract(TL + "trim_line", property="C03", replayable=False)
+class trim_line:
+    params = dict(segs=LINE, text=TEXT, start=Int, end=Int)
+    result = LINE
+    raises = ()
+    ensures = staticmethod(_trim_ens)
+    ensures_callee = staticmethod(lambda a, result: _trim_ens(a, result, True))
+    loops = {0: Loop(invariant=_trim_inv, shapes={"result": LINE})}
+
+    def requires(a):
+        # (lines holding inserted-text segments are not covered: see LayoutSegment.subseg)
+        return both(line_wf(a.segs, a.text), 0 <= a.start, a.start <= a.end)
